@@ -63,7 +63,8 @@ impl TransformController for Ctl {
 
 pub enum LRes {
     Ok(Vec<LTok>, Vec<u8>),
-    Ambiguity,
+    /// (bytes emitted before the refusal, name of the offending tag)
+    Ambiguity(Vec<u8>, String),
     Other(String),
 }
 
@@ -107,7 +108,12 @@ pub fn lol_tokens_enc(input: &[u8], cuts: &[usize], flags: TokenCaptureFlags, st
             let o = out.borrow().clone();
             LRes::Ok(t, o)
         }
-        Ok(Err(RewritingError::ParsingAmbiguity(_))) => LRes::Ambiguity,
+        Ok(Err(RewritingError::ParsingAmbiguity(e))) => {
+            let msg = e.to_string();
+            let name = msg.split("(`<").nth(1).and_then(|r| r.split(">`)").next()).unwrap_or("").to_string();
+            let o = out.borrow().clone();
+            LRes::Ambiguity(o, name)
+        }
         Ok(Err(e)) => LRes::Other(format!("{e:?}")),
         Err(p) => LRes::Other(format!("PANIC: {}", engine::panic_msg(&p))),
     }
@@ -244,11 +250,45 @@ pub struct Case3 {
 #[derive(Default)]
 pub struct Obs {
     pub ambiguity: bool,
+    pub refusal_located: bool,
     pub nontrivial: bool,
     pub tokens: usize,
 }
 
 const FLAG_SETS: &[(u8, &str)] = &[(0b11111, "all"), (0b00100, "start-tags"), (0b01000, "end-tags"), (0b00001, "text"), (0b00010, "comments"), (0b10000, "doctypes")];
+
+/// independent model of the statement's "inside select (incl. template in select) or in/after frameset", over the
+/// token stream html5ever produces for the prefix
+pub fn syntactic_guard_context(prefix: &str) -> bool {
+    #[derive(PartialEq)]
+    enum St {
+        Default,
+        InSelect,
+        InTpl(usize),
+        Frameset,
+    }
+    let mut st = St::Default;
+    for t in html5ever_tokens(prefix) {
+        st = match (st, &t) {
+            (St::Frameset, _) => St::Frameset,
+            (St::Default, HTok::Start { name, .. }) if name == "select" => St::InSelect,
+            (St::Default, HTok::Start { name, .. }) if name == "frameset" => St::Frameset,
+            (St::InSelect, HTok::Start { name, .. }) if matches!(name.as_str(), "select" | "textarea" | "input" | "keygen") => St::Default,
+            (St::InSelect, HTok::Start { name, .. }) if name == "template" => St::InTpl(1),
+            (St::InSelect, HTok::End { name }) if name == "select" => St::Default,
+            (St::InTpl(d), HTok::Start { name, .. }) if name == "template" => St::InTpl(d + 1),
+            (St::InTpl(d), HTok::End { name }) if name == "template" => {
+                if d == 1 {
+                    St::InSelect
+                } else {
+                    St::InTpl(d - 1)
+                }
+            }
+            (s, _) => s,
+        };
+    }
+    st != St::Default
+}
 
 pub fn check(input: &[u8], cuts: &[usize]) -> Result<Obs, (String, String)> {
     let text = std::str::from_utf8(input).map_err(|_| ("harness".to_string(), "input not UTF-8".to_string()))?;
@@ -259,7 +299,7 @@ pub fn check(input: &[u8], cuts: &[usize]) -> Result<Obs, (String, String)> {
     let ctx = || format!("\n input: {}\n cuts: {cuts:?}", show(input));
     let strict_toks = match strict_all {
         LRes::Other(e) => return Err(("unexpected-error".into(), format!("strict run failed with {e}{}", ctx()))),
-        LRes::Ambiguity => {
+        LRes::Ambiguity(emitted, on_tag) => {
             obs.ambiguity = true;
             // necessary condition from the statement: a select / frameset start tag precedes, and a text-mode
             // switching tag name occurs
@@ -267,6 +307,20 @@ pub fn check(input: &[u8], cuts: &[usize]) -> Result<Obs, (String, String)> {
             let has_switch = gen::TEXT_MODE_NAMES.iter().any(|n| lower.contains(&format!("<{n}")));
             if !(has_ctx && has_switch) {
                 return Err(("unjustified-ambiguity".into(), format!("strict mode refused the input although it contains no select/frameset context with a text-mode switching start tag{}", ctx())));
+            }
+            // sufficient precision (added after a mutation that never left the guard's in-select state survived): the
+            // offending tag is located through the bytes emitted before the refusal (C09: everything before the
+            // unfinished tag is out), and the refusal is *unjustified* only if BOTH an independent syntactic model of
+            // "inside select (incl. template in select) / after a frameset start tag" over html5ever's tokens AND
+            // html5ever's tree builder itself (an unknown probe element appended at that point is inserted outside any
+            // select) say the tag is not in such a context.
+            let p = emitted.len();
+            if p < input.len() && input[p] == b'<' && input.starts_with(&emitted) && !on_tag.is_empty() && lower[p + 1..].starts_with(&on_tag.to_ascii_lowercase()) {
+                obs.refusal_located = true;
+                let prefix = &text[..p];
+                if !syntactic_guard_context(prefix) && crate::oracle::probe_context(prefix) == crate::oracle::ProbeCtx::Elsewhere {
+                    return Err(("unjustified-ambiguity-at-tag".into(), format!("strict mode refused `<{on_tag}` at offset {p}, but neither the syntactic select/frameset model nor html5ever's tree builder place that tag inside select / template-in-select / after frameset{}", ctx())));
+                }
             }
             None
         }
@@ -279,7 +333,7 @@ pub fn check(input: &[u8], cuts: &[usize]) -> Result<Obs, (String, String)> {
     };
     let lax_toks = match lax_all {
         LRes::Ok(t, _) => t,
-        LRes::Ambiguity => return Err(("ambiguity-nonstrict".into(), format!("non-strict run failed with ParsingAmbiguity{}", ctx()))),
+        LRes::Ambiguity(..) => return Err(("ambiguity-nonstrict".into(), format!("non-strict run failed with ParsingAmbiguity{}", ctx()))),
         LRes::Other(e) => return Err(("unexpected-error".into(), format!("non-strict run failed with {e}{}", ctx()))),
     };
     let Some(strict_toks) = strict_toks else { return Ok(obs) };
@@ -310,14 +364,14 @@ pub fn check(input: &[u8], cuts: &[usize]) -> Result<Obs, (String, String)> {
                     return Err(("tokens-differ-from-whatwg".into(), format!("capture set {name}: lol-html (A) vs html5ever (B): {}{}", crate::norm::first_diff(&h, &exp), ctx())));
                 }
             }
-            LRes::Ambiguity => {
+            LRes::Ambiguity(..) => {
                 // accepted artefact (DESIGN.md §6): the tag scanner consults the guard when a tag NAME is complete, the
                 // lexer when the whole tag is; if the input ends inside that tag only the scanning run refuses.
                 // Recognised exactly: completing the tag makes the capture-all run refuse too.
                 let completes = [&b">"[..], b"\">", b"'>"].iter().any(|sfx| {
                     let mut i2 = input.to_vec();
                     i2.extend_from_slice(sfx);
-                    matches!(lol_tokens(&i2, cuts, TokenCaptureFlags::all(), true), LRes::Ambiguity)
+                    matches!(lol_tokens(&i2, cuts, TokenCaptureFlags::all(), true), LRes::Ambiguity(..))
                 });
                 if !completes {
                     return Err(("result-differs".into(), format!("capture set {name} gives ParsingAmbiguity but capture-all succeeds{}", ctx())));
@@ -464,6 +518,9 @@ impl Prop for C03 {
                 Ok(o) => {
                     if o.ambiguity {
                         ctx.count("strict_refusals");
+                        if o.refusal_located {
+                            ctx.count("strict_refusals_located_and_justified");
+                        }
                     } else {
                         ctx.count("strict_successes");
                         ctx.add("tokens_compared", o.tokens as u64);
